@@ -105,7 +105,7 @@ def gen_op(rng: random.Random, cfg: dict, kind: str | None = None) -> dict:
             id=["fresh", 0] if rng.random() < 0.6 else ["explicit", rng.randint(1, 60)],
             force=force, reinvert=reinv,
             pix={"o": [rng.random() for _ in range(3)], "ext": [rng.randint(1, 3) for _ in range(3)], "pat": rng.choice(["box", "box", "scatter", "single"])},
-            pos=[rng.random() for _ in range(3)], bogus_attrs=rng.random() < 0.15,
+            pos=[rng.random() for _ in range(3)], bogus_attrs=rng.random() < 0.15, reuse_dict=rng.random() < 0.3,
         )
         if inval:
             op["invalid"] = rng.choice(["exists", "no_time", "no_track", "no_pos", "no_pos", "partial_pos", "id_overflow", "bad_pixels"])
